@@ -28,6 +28,8 @@ type Transaction struct {
 	Description string
 	Payee       string
 	Note        string
+	// PayeeRange covers the payee, or the whole description when there is no note.
+	PayeeRange  Range
 	Postings    []Posting
 	Tags        []Tag
 	Comments    []Comment
